@@ -1,0 +1,11 @@
+//go:build verif
+
+package encrypt
+
+import "reflect"
+
+// VerifStatGateInUse reports how many slots of the package-level stat gate are
+// currently taken.
+func VerifStatGateInUse() int {
+	return reflect.ValueOf(statGate).Elem().Field(0).Len()
+}
